@@ -143,8 +143,23 @@ def _clause_row(ctx, f, expr, relation, threshold_kind):
     helper_defs = {n.name: n for n in f.node.body if isinstance(n, ast.FunctionDef)}
     # 1. coefficient conditional:  '-1 v' + <positive var text> if <negative test> else '+1 v' + str(v)
     conds = [n for n in ast.walk(expr) if isinstance(n, ast.IfExp)]
-    ctx.require(len(conds) >= 1, "%s: no conditional coefficient expression found" % f.fq)
+    if not conds:
+        ctx.bad("C28.row", f, "sign coefficients", "the %s row of %s has no per-literal sign coefficient any more: every literal must appear, negated ones with -1 and the others with +1 "
+                "(a row over part of the literals accepts / excludes other assignments than the clause / the previous solution)" % (threshold_kind, f.qual), expr)
+        return
     c = conds[0]
+    # the literals that are rendered and the literals that are counted for the threshold are the same collection
+    maps = [n for n in ast.walk(expr) if isinstance(n, ast.Call) and isinstance(n.func, ast.Name) and n.func.id == "map" and len(n.args) == 2 and any(x is c for x in ast.walk(n.args[0]))]
+    ctx.require(len(maps) == 1, "%s: the map over the literals was not found" % f.fq)
+    rendered = ast.unparse(maps[0].args[1])
+    counted = None
+    for n in ast.walk(expr):
+        if isinstance(n, ast.Call) and isinstance(n.func, ast.Name) and n.func.id == "count_false_var" and n.args:
+            counted = ast.unparse(n.args[0])
+    if threshold_kind == "blocking":
+        counted = "solution"
+    ctx.check(rendered == counted, "C28.row", f, "terms over %s, threshold over %s" % (rendered, counted), "the terms and the threshold range over the same literals",
+              "the %s row renders the literals of `%s` but its threshold is computed from `%s`: repeated / omitted literals shift the threshold against the terms" % (threshold_kind, rendered, counted), maps[0])
     neg_parts, pos_parts = str_parts(c.body), str_parts(c.orelse)
     negtest = _is_neg_test(c.test)
     ctx.require(negtest, "%s: coefficient test '%s' is not a recognised negativity test" % (f.fq, ast.unparse(c.test)))
